@@ -218,7 +218,10 @@ func genC27(t *rapid.T) c27Case {
 		}
 	default:
 		c.LTime = rapid.Uint64().Draw(t, "ltime")
-		switch rapid.IntRange(0, 5).Draw(t, "payloadkind") {
+		switch rapid.IntRange(0, 7).Draw(t, "payloadkind") {
+		case 6, 7:
+			// newlines inside, with and without one at the very end: only the last byte decides
+			c.Payload = []byte(rapid.SampledFrom([]string{"two\nlines", "a\n\nb", "\nx", "x\n\n", "l1\nl2\n", "\n\n", "a\rb", "tab\there\nand more"}).Draw(t, "multiline"))
 		case 0:
 			c.Payload = nil
 		case 1:
